@@ -139,6 +139,7 @@ pub struct MapEng<'c, KD: Kind, const N: usize> {
     pub univ: u8,
     pub slots: [Option<Slot<KD, N>>; 2],
     pub liar: bool,
+    pub unchecked_liar: bool,
     pub lockstep: bool,
     /// an injected panic was caught in the current op; models must be re-synchronised
     pub faulted: bool,
@@ -177,8 +178,13 @@ impl<'c, KD: Kind, const N: usize> MapEng<'c, KD, N> {
         if univ > KD::MAX_UNIV {
             univ = KD::MAX_UNIV;
         }
-        let liar = case.prop == Prop::C17 && KD::TRACKED;
-        let lockstep = case.prop == Prop::C18;
+        // C18, a quarter of the tracked cases: no lockstep twin; instead every plain insert into a
+        // map that is not full goes through insert_unchecked while the key type's == misbehaves
+        // (the contract "not full" holds whatever == says, and within it the unchecked path
+        // upholds "every other guarantee" - among them C17's memory safety under such keys)
+        let unchecked_liar = unchecked_liar_case(case) && KD::TRACKED;
+        let liar = (case.prop == Prop::C17 || unchecked_liar) && KD::TRACKED;
+        let lockstep = case.prop == Prop::C18 && !unchecked_liar;
         let mut slots = [Some(Slot::new()), None];
         if lockstep {
             slots[1] = Some(Slot::new());
@@ -189,6 +195,7 @@ impl<'c, KD: Kind, const N: usize> MapEng<'c, KD, N> {
             slots,
             liar,
             lockstep,
+            unchecked_liar,
             faulted: false,
             ever_faulted: false,
             last_ret: [0; 2],
@@ -498,7 +505,8 @@ impl<'c, KD: Kind, const N: usize> MapEng<'c, KD, N> {
             }
         } else {
             let which = if raw[3] & 0x80 != 0 && self.slots[1].is_some() { 1 } else { 0 };
-            self.exec(opi, raw, which, false);
+            let unchecked = self.unchecked_liar;
+            self.exec(opi, raw, which, unchecked);
         }
     }
 
@@ -523,7 +531,7 @@ impl<'c, KD: Kind, const N: usize> MapEng<'c, KD, N> {
             OP_CONSUME => self.op_consume(w, a, b, c),
             OP_ENTRY => self.op_entry(w, a, b, c),
             OP_CLONE => self.op_clone(a, b),
-            OP_DISJOINT => self.op_disjoint(w, a, b, c, use_unchecked),
+            OP_DISJOINT => self.op_disjoint(w, a, b, c, use_unchecked && !self.liar),
             OP_DISJOINT_SWEEP => self.op_disjoint_sweep(w, a),
             OP_OVERFLOW_SWEEP => self.op_overflow_sweep(w, a, b),
             OP_FMT => self.op_fmt(w, a, b),
@@ -671,11 +679,15 @@ impl<'c, KD: Kind, const N: usize> MapEng<'c, KD, N> {
     }
 }
 
+pub fn unchecked_liar_case(case: &Case) -> bool {
+    case.prop == Prop::C18 && case.mode >= 192
+}
+
 /// Run one maphist case for a fixed kind and capacity.
 pub fn run<KD: Kind, const N: usize>(case: &Case, cx: &mut Ctx) {
     tl::ledger_reset();
     cx.engine = "maphist";
-    if case.prop == Prop::C17 {
+    if case.prop == Prop::C17 || (unchecked_liar_case(case) && KD::TRACKED) {
         let bits: Vec<u8> = case.ops.iter().flat_map(|o| [o[2], o[3]]).collect();
         tl::liar_set(1 + case.mode % (tl::LIAR_MODES - 1), 2 + (case.mode >> 4), bits);
     } else {
